@@ -531,10 +531,13 @@ fn files_mask(repo: &dyn Repo, ids: &[CommitId], start: usize) -> u32 {
     m
 }
 
-/// Where `files(path)` is decidable without a tree merge, it must say what the versions say.
+/// Where `files(path)` is decidable without a tree merge (single-parent commits), it must say
+/// what the versions say. (For a merge commit the parents' auto-merge can be a conflict even
+/// when all parents have the same version -- criss-cross merges with two different bases --,
+/// so merges are not cross-checked.)
 fn sanity_files(g: &G, files: u32, start: usize) {
     for c in nodes_of(g.anc[start]) {
-        if c == 0 {
+        if c == 0 || g.parents[c].len() != 1 {
             continue;
         }
         let pv: BTreeSet<usize> = g.parents[c].iter().map(|&p| g.version[p]).collect();
@@ -870,7 +873,7 @@ fn main() {
         exhaustive: true,
         extra,
         assumptions: vec![
-            "files(path) membership of each commit is taken from the real revset engine (lower layer, C19/C22); it is cross-checked against the versions wherever all parents have the same version".into(),
+            "files(path) membership of each commit is taken from the real revset engine (lower layer, C19/C22); it is cross-checked against the versions for every single-parent commit".into(),
             "'carried over' is defined by ContentDiff::by_line (C03), evaluated in both argument orders, 4 times each".into(),
             "the graph of the searched set (nearest searched ancestors, missing-edge targets) is the reference of C39; an edge to a nearest searched ancestor that is also reachable through another one may be dropped as transitive".into(),
             "every (history, start) pair is covered as the history on the ancestors of the start with the start newest; unrelated commits of the same repository (other histories of the trie) sit between them in the index".into(),
